@@ -1,1 +1,65 @@
--- property theorems for C06 (stub)
+/- C06 - channels conserve values, keep order, respect capacity and lose no wake-ups.
+   Theorems about the model `JanetModel.Ev` instantiated with `currentCfg`, the configuration that tools/gen/ev.py reads
+   off the CURRENT ev.c (Gen/Ev.lean).  A `by decide` on a configuration bit is a proof obligation on the source: it
+   fails when the source does not have the corresponding test. -/
+import JanetModel.Ev.Lemmas
+import JanetModel.Ev.Current
+namespace JanetModel.Props.C06
+open JanetModel.Ev
+
+/-! ## capacity / blocking rule (all states) -/
+
+/-- A give on an open channel completes without waiting exactly when a taker is already waiting (a pending reader whose
+    sched_id is current) or the channel is below capacity.  Obligation on the source: the test is `count > limit`. -/
+theorem give_blocks_iff (w : World) (f c x : Nat) (w' : World) (b : Bool)
+    (h : chanPush currentCfg w f c x 0 = .ok w' b) :
+    b = false ↔ (hasLiveReader w.fibers (w.chans c).readPending = true ∨
+                 (w.chans c).items.length < (w.chans c).limit) :=
+  Ev.give_blocks_iff currentCfg (by decide) w f c x 0 w' b h
+
+/-- A take on an open channel waits exactly when the channel is empty. -/
+theorem take_blocks_iff (w : World) (f c : Nat) (ho : (w.chans c).closed = false) :
+    (∃ w', chanPop currentCfg w f c 0 = .blocked w') ↔ (w.chans c).items = [] :=
+  Ev.take_blocks_iff currentCfg w f c 0 ho
+
+/-! ## the three defects of the pinned tree, as theorems about the model with the pinned configuration -/
+
+/-- DESIGN §4-1 on a 2-fiber world: main spawns a taker, sleeps, then `(ev/select [ch 11])`.  With the pinned
+    configuration the value is handed over in the registration loop and the selecting fiber is then suspended with no
+    registration, task or timer left: it can never be resumed. -/
+def hangActs : List Action :=
+  [.timers, .runTask, .go 1, .sleep0, .runTask, .take 0, .timers, .runTask, .select [.give 0 11], .runTask, .finish false]
+
+theorem select_give_to_waiting_taker_sticks :
+    lostWakeup (run Cfg.pinned (World.start fun _ => 0) hangActs) 0 1 = true
+    ∧ (run Cfg.pinned (World.start fun _ => 0) hangActs).ghost.received = [(1, 11)] := by decide
+
+/-- the same actions with every check present: the select returns at once, nobody is stuck -/
+example : lostWakeup (run Cfg.good (World.start fun _ => 0) hangActs) 0 1 = false := by decide
+
+/-- A: `(ev/select [c0 1001] c1)`, B: `(ev/give c1 2001)`, T: `(ev/take c0)`.  A is resumed through c1; T then pops A's
+    stale writer entry on c0 and schedules A a second time, the first task (carrying 2001) is dropped by the stale-task
+    filter and A's select yields `[:give c0]`: 2001 was handed over and is received by nobody. -/
+def staleWriterActs : List Action :=
+  [.timers, .runTask, .go 1, .go 2, .go 3, .finish false, .runTask, .select [.give 0 1001, .take 1], .runTask,
+   .give 1 2001, .finish false, .runTask, .take 0, .runTask, .runTask, .finish false, .runTask, .finish false]
+
+theorem take_wakes_stale_select_writer :
+    let w := run Cfg.pinned (World.start fun _ => 0) staleWriterActs
+    w.ghost.dropped.map (·.value) = [Val.take 1 2001] ∧ w.ghost.received = [(3, 1001)] := by decide
+
+example : (run Cfg.good (World.start fun _ => 0) staleWriterActs).ghost.dropped = [] := by decide
+
+/-- A: `(ev/select c0 c1)`, B: `(ev/give c1 2001)`, T: `(ev/chan-close c0)`: closing c0 schedules A through its stale
+    entry; the task carrying 2001 is dropped and A's select yields `[:close c0]`. -/
+def staleCloseActs : List Action :=
+  [.timers, .runTask, .go 1, .go 2, .go 3, .finish false, .runTask, .select [.take 0, .take 1], .runTask,
+   .give 1 2001, .finish false, .runTask, .close 0, .finish false, .runTask, .runTask, .finish false]
+
+theorem close_wakes_stale_select_waiter :
+    let w := run Cfg.pinned (World.start fun _ => 0) staleCloseActs
+    w.ghost.dropped.map (·.value) = [Val.take 1 2001] ∧ w.ghost.received = [] := by decide
+
+example : (run Cfg.good (World.start fun _ => 0) staleCloseActs).ghost.received = [(1, 2001)] := by decide
+
+end JanetModel.Props.C06
